@@ -400,6 +400,22 @@ def x_samename(tier='quick'):
                     bases={('a.xsd', 'Address'): ('b.xsd', b_addr), ('b.xsd', 'Address'): None, ('a.xsd', 'Item'): None, ('b.xsd', 'Item'): None, ('a.xsd', 'Special'): ('a.xsd', a_item)})
 
 
+def x_particles(tier='quick'):
+    """the extension's own content is a choice, an xs:all or a sequence directly under xs:extension (symbolic), FOLLOWED by the
+    extension's own attributes; the base carries members and an attribute; declaration order symbolic"""
+    kind = Selector('own_particle', ['choice', 'all', 'seq'])
+    base = CT('Base', Seq([El('id', 'xs:string')]), attrs=[Attr('rev', 'xs:int')])
+    order = Selector('order', perms(2))
+    scs = []
+    for k, P in (('choice', Choice), ('all', All), ('seq', Seq)):
+        derived = CT('Derived', P([El('p', 'xs:string'), El('q', 'xs:long')]), base='t:Base', ext_attrs=[Attr('own_attr', 'xs:string'), Attr('second', 'xs:int')])
+        sch = Schema(NS1, [derived, base], prefixes={'t': NS1}, order=order)
+        sc = Scenario('X-particles-' + k, {'a.xsd': sch}, 'a.xsd', [order])
+        scs.append((sc, Info(schemas={'a.xsd': sch}, subjects=[('a.xsd', base)], derived=[('a.xsd', derived, ('a.xsd', base))], simple=[],
+                             bases={'Base': None, 'Derived': ('a.xsd', base)})))
+    return scs
+
+
 def x_diamond(tier='quick'):
     """diamond import with three arms: top.xsd imports left.xsd, middle.xsd and right.xsd, all of which import common.xsd and
     extend its type; the order of the three imports in top.xsd is symbolic"""
